@@ -81,10 +81,18 @@ pub trait OpDriver: Send + Sync {
     /// members that do not survive s3s-aws's conversion layer: try_from_aws(try_into_aws(x)) vs x (Err = conversion refused)
     fn conv_roundtrip_input<'a>(&'a self, alts: &'a [usize]) -> BoxFuture<'a, Result<Vec<String>, String>>;
     fn conv_roundtrip_output<'a>(&'a self, alts: &'a [usize]) -> BoxFuture<'a, Result<Vec<String>, String>>;
+    /// optional top-level members absent in the generated input / in the recorded input / in the generated output
+    fn input_absent(&self, alts: &[usize]) -> Vec<&'static str>;
+    fn recorded_absent(&self, recorded: &BackendCall) -> Vec<&'static str>;
+    fn output_absent(&self, alts: &[usize]) -> Vec<&'static str>;
+    /// Debug rendering of the recorded input
+    fn recorded_debug(&self, recorded: &BackendCall) -> String;
     /// Debug rendering of an S3Request for this operation that carries credentials
     fn request_debug_with_credentials(&self, access_key: &str, secret: &str) -> String;
     /// the typed result a scripted backend should return
     fn scripted_output(&self, alts: &[usize], status: Option<http::StatusCode>, headers: http::HeaderMap) -> AnyBox;
+    /// a typed Err result for a scripted backend
+    fn scripted_error(&self, err: S3Error) -> AnyBox;
     /// members of a received S3Response<Output> (boxed) that differ from the generated output
     fn diff_output<'a>(&'a self, alts: &'a [usize], got: AnyBox) -> BoxFuture<'a, Result<(Vec<String>, http::HeaderMap, Option<http::StatusCode>), String>>;
 }
@@ -163,6 +171,18 @@ where
             Ok(d)
         })
     }
+    fn input_absent(&self, alts: &[usize]) -> Vec<&'static str> {
+        self.input(alts).absent_fields()
+    }
+    fn recorded_absent(&self, recorded: &BackendCall) -> Vec<&'static str> {
+        recorded.input.downcast_ref::<I>().map(FieldDiff::absent_fields).unwrap_or_default()
+    }
+    fn output_absent(&self, alts: &[usize]) -> Vec<&'static str> {
+        self.output(alts).absent_fields()
+    }
+    fn recorded_debug(&self, recorded: &BackendCall) -> String {
+        recorded.input.downcast_ref::<I>().map(|i| format!("{i:?}")).unwrap_or_default()
+    }
     fn request_debug_with_credentials(&self, access_key: &str, secret: &str) -> String {
         let mut req = s3_request(self.input(&[]));
         req.credentials = Some(s3s::auth::Credentials { access_key: access_key.to_owned(), secret_key: s3s::auth::SecretKey::from(secret) });
@@ -173,6 +193,9 @@ where
         r.status = status;
         r.headers = headers;
         Box::new(Ok::<_, S3Error>(r))
+    }
+    fn scripted_error(&self, err: S3Error) -> AnyBox {
+        Box::new(Err::<S3Response<O>, S3Error>(err))
     }
     fn diff_output<'a>(&'a self, alts: &'a [usize], got: AnyBox) -> BoxFuture<'a, Result<(Vec<String>, http::HeaderMap, Option<http::StatusCode>), String>> {
         Box::pin(async move {
@@ -198,6 +221,12 @@ pub trait TakeOutBody {
 }
 
 include!(concat!(env!("OUT_DIR"), "/drivers_gen.rs"));
+
+/// the driver table with a 'static lifetime (scripted backends capture drivers)
+pub fn all() -> &'static [Box<dyn OpDriver>] {
+    static ALL: OnceLock<Vec<Box<dyn OpDriver>>> = OnceLock::new();
+    ALL.get_or_init(drivers)
+}
 
 pub fn driver(name: &str) -> Box<dyn OpDriver> {
     drivers().into_iter().find(|d| d.name() == name).unwrap_or_else(|| panic!("no driver for {name}"))
